@@ -263,23 +263,21 @@ blte_decrypt_walk!(c02_blte_decrypt_walk_n24, 24);
 const CAP: usize = 1024 * 1024 * 1024;
 static mut LZ4_CLAIM: usize = 0;
 static mut LZ4_CALLS: usize = 0;
+static mut LZ4_FAIL: bool = false;
+// No calls inside the stand-in (helper calls inside stubs on allocation-heavy paths produced spurious
+// `__rust_dealloc` failures in this Kani version): the outcome is chosen by the harness through LZ4_FAIL, the
+// size claim is recorded and judged by the harness.
 fn stub_lz4(_input: &[u8], min_uncompressed_size: usize) -> Result<Vec<u8>, lz4_flex::block::DecompressError> {
     unsafe {
         LZ4_CALLS += 1;
         LZ4_CLAIM = min_uncompressed_size;
-    }
-    // the real decoder allocates `min_uncompressed_size` bytes first: a claim above the cap must never get here
-    assert!(min_uncompressed_size <= CAP, "LZ4 size claim above MAX_DECOMPRESSION_SIZE reached the decoder (allocation)");
-    if kani::any() {
-        Err(lz4_flex::block::DecompressError::ExpectedAnotherByte)
-    } else {
-        Ok(Vec::new())
+        if LZ4_FAIL { Err(lz4_flex::block::DecompressError::ExpectedAnotherByte) } else { Ok(Vec::new()) }
     }
 }
 macro_rules! blte_lz4_prefix {
     ($name:ident, $n:expr) => {
         #[kani::proof]
-        #[kani::unwind(4)]
+        #[kani::unwind(10)]
         #[kani::stub(std::fmt::format, fmt_format_empty)]
         #[kani::stub(lz4_flex::block::decompress_safe::decompress, stub_lz4)]
         #[kani::stub(std::alloc::alloc, spy::alloc)]
@@ -291,9 +289,14 @@ macro_rules! blte_lz4_prefix {
             // mode concrete (a symbolic mode would make the symbolic execution walk into the zlib decoder)
             let m: u8 = b'4';
             let mode = CompressionMode::LZ4;
+            let fail: bool = kani::any();
+            unsafe { LZ4_FAIL = fail };
             spy::reset();
             let r = decompress_chunk(&d, mode);
-            assert!(spy::max_req() <= spy::limit(N), "decompress_chunk: allocation request out of proportion to input");
+            // the real decoder (native replay) may allocate up to the documented 1 GiB cap
+            assert!(spy::max_req() <= if cfg!(vreplay) { CAP + spy::limit(N) } else { spy::limit(N) }, "decompress_chunk: allocation request out of proportion to input");
+            // a claim above the cap must never reach the decoder (which allocates `claim` bytes first)
+            assert!(cfg!(vreplay) || unsafe { LZ4_CALLS == 0 || LZ4_CLAIM <= CAP }, "LZ4 size claim above MAX_DECOMPRESSION_SIZE reached the decoder (allocation)");
             kani::cover!(r.is_ok() && m == b'4' || N < 8, "LZ4 chunk accepted");
             kani::cover!(r.is_err() && m == b'4', "LZ4 chunk rejected");
             let claim = if N >= 8 {
@@ -332,9 +335,9 @@ macro_rules! blte_lz4_prefix {
 // @catches cap compared with `>=` vs `>` / wrong constant, prefix read big-endian, cap checked after the decoder call, missing short-input check, size mismatch not rejected
 blte_lz4_prefix!(c02_blte_lz4_prefix_n0, 0);
 blte_lz4_prefix!(c02_blte_lz4_prefix_n7, 7);
-// UNVERIFIED(not run to completion within the time budget): blte_lz4_prefix!(c02_blte_lz4_prefix_n8, 8);
-// UNVERIFIED(not run to completion within the time budget): blte_lz4_prefix!(c02_blte_lz4_prefix_n9, 9);
-// UNVERIFIED(not run to completion within the time budget): blte_lz4_prefix!(c02_blte_lz4_prefix_n16, 16);
+blte_lz4_prefix!(c02_blte_lz4_prefix_n8, 8);
+blte_lz4_prefix!(c02_blte_lz4_prefix_n9, 9);
+blte_lz4_prefix!(c02_blte_lz4_prefix_n16, 16);
 // @end
 
 // ---- C08: header + chunk table round trip ------------------------------------------------------------------------
